@@ -3,7 +3,7 @@ import re
 from ..runner import Spec, Case
 from .. import core
 
-WRAPPED = ('fopen', 'fclose', 'fseek', 'ftell', 'fflush', 'feof', 'fread', 'fwrite', 'vfprintf', 'vfscanf', '__isoc99_vfscanf')
+WRAPPED = ('popen', 'pclose', 'fopen', 'fclose', 'fseek', 'ftell', 'fflush', 'feof', 'fread', 'fwrite', 'vfprintf', 'vfscanf', '__isoc99_vfscanf')
 NFILE = 6
 BUF = 4096            # st_blksize: the size of the buffer glibc really allocates for a regular file
 BUFSIZ = 8192
@@ -113,7 +113,9 @@ class Sim:
     def close(self, o, how='close'):
         self.emit(f'{how} {o}'); self.do_close_state(o)
     def delete(self, o):
-        self.emit(f'del {o}')
+        # del, or (one time in four) the collector: the slot is cleared and a collection forced
+        full = self.open[o] and self.open[o]['file'] == 91
+        self.emit(f'del {o}' if full or self.rng.random() < 0.75 else f'drop {o}')
         if o >= 4 and o not in self.inwith: self.exists[o] = False; self.do_close_state(o)
     def new(self, o):
         self.emit(f'new {o}')
@@ -171,7 +173,7 @@ def gen_roundtrip(rng, maxbuf):
         if not s.open[o] and rng.random() < 0.7: s.emit(f'dump {k}')
     return s.lines
 
-LIFE = ['new', 'newopen', 'open', 'openfail', 'close', 'stop', 'with', 'withclose', 'withx', 'del', 'write', 'tell', 'openfull',
+LIFE = ['new', 'newopen', 'open', 'openfail', 'close', 'stop', 'with', 'withclose', 'withx', 'del', 'drop', 'write', 'tell', 'openfull',
         'withcont', 'withbrk', 'withret', 'wnew', 'wnewbrk', 'wnewret', 'wcall', 'wnew0', 'wnewfail', 'copyc']
 # Known findings (KNOWN_FINDINGS.txt): generated inputs stay out of their regions.
 #  KF-C20-with-early-exit: a with block left by break / return / an exception while its File is open -> every generated body
@@ -190,6 +192,7 @@ def life_lines(o, k, sym, rng):
     if sym == 'withclose': return [f'with {o} 2', f'tell {o}', f'close {o}']
     if sym == 'withx': return [f'withx {o} 2', f'write {o} 2 2', f'close {o}']
     if sym == 'del': return [f'del {o}']
+    if sym == 'drop': return [f'drop {o}']          # the collector as the closer (answered `unsup` on /dev/full, like nothing happened)
     if sym == 'withcont': return [f'withv {o} cont 1', f'write {o} 3 1']
     if sym == 'withbrk': return [f'withv {o} brk 2', f'write {o} 2 7', f'close {o}']
     if sym == 'withret': return [f'withv {o} ret 2', f'write {o} 1 3', f'stop {o}']
@@ -212,7 +215,7 @@ def life_lines(o, k, sym, rng):
 def gen_lifecycle_exhaustive(maxlen):
     """every order of the life-cycle operations up to `maxlen` on one heap object (and the same on a stack object)"""
     import itertools, random
-    alpha = ['newopen', 'open', 'close', 'stop', 'with', 'withx', 'del', 'openfull', 'wnew', 'wnewbrk', 'copyc']
+    alpha = ['newopen', 'open', 'close', 'stop', 'with', 'withx', 'del', 'drop', 'openfull', 'wnew', 'wnewbrk', 'copyc']
     out = []
     rng = random.Random(5)
     for n in range(1, maxlen + 1):
@@ -228,7 +231,7 @@ def gen_lifecycle_random(rng):
     for _ in range(rng.randrange(4, 25)):
         o = rng.choice(objs); k = rng.randrange(NFILE)
         sym = rng.choice(LIFE)
-        if o < 4 and sym in ('new', 'newopen', 'del'): sym = 'open'
+        if o < 4 and sym in ('new', 'newopen', 'del', 'drop'): sym = 'open'
         s += life_lines(o, k if sym != 'open' else (o % NFILE), sym, rng)
     return s
 
@@ -279,7 +282,7 @@ def with_stmt(rng, free, files, depth, maxbuf):
     if free and rng.random() < 0.15:                                   # a copy of the File, closed just before: an independent File
         p = free[0]
         post += [f'close {o}', f'copy {o} {p}', f'open {p} {k} a', f'write {p} 1 1', f'tell {o}', f'del {p}', f'dump {k}']
-    if rng.random() < 0.8: post.append(f'del {o}'); free.append(o)
+    if rng.random() < 0.8: post.append(f'{"del" if rng.random() < 0.7 else "drop"} {o}'); free.append(o)
     files.append(k)
     return pre + [hdr] + body + post
 
@@ -463,6 +466,60 @@ def gen_closed(rng):
     if o >= 4: lines.append(f'del {o}')
     return lines
 
+PCMDS = [0, 1, 10, 11, 12, 13]
+def gen_proc(rng):
+    """Process objects (popen / pclose): constructor with 2 / 1 / 0 arguments, commands that end with status 0 (`true`, `cat`) and
+    with a non-zero status (`false`: the close path raises IOError and must still drop the handle), every op on a closed
+    Process, reopen, del, with blocks, bytes through `cat` in both directions.  Early exits from with close first
+    (KF-C20-with-early-exit)."""
+    lines = []
+    exists = {0: True, 1: True, 2: False, 3: False}
+    isopen = {o: False for o in range(4)}
+    for k in range(rng.randrange(0, 3)):
+        lines.append(f'pgen {rng.randrange(4)} {rng.choice([0, 1, 5, 100, 4095, 4096, 4097, 9000, 65536])} {rng.randrange(1 << 30)}')
+    def mode(): return rng.choice(['r', 'r', 'w', 'w', 'r', 'w', 'x', 'r+'])
+    def closed_ops(o):
+        ops = [f'pclose {o}', f'pstop {o}', f'pseek {o} 0 set', f'ptell {o}', f'pflush {o}', f'peof {o}', f'pread {o} 0', f'pread {o} 7',
+               f'pwrite {o} 0 1', f'pwrite {o} 4 1', f'pprint {o} 42', f'pscan {o}', f'pwith {o} fall 0', f'pwith {o} cont 1\nptell {o}']
+        rng.shuffle(ops)
+        out = []
+        for x in ops[:rng.randrange(1, len(ops) + 1)]: out += x.split('\n')
+        return out
+    def step(depth, inside):
+        o = rng.randrange(4); r = rng.random()
+        if not exists[o]:
+            q = rng.random()
+            if q < 0.1: lines.append(f'pnew0 {o}')
+            elif q < 0.2: lines.append(f'pnew1 {o} {rng.choice(PCMDS)}')
+            else:
+                m = mode(); lines.append(f'pnew {o} {rng.choice(PCMDS)} {m}')
+                if m in 'rw': exists[o] = True; isopen[o] = True      # approximate: `busy` answers leave the slot free
+            return
+        if r < 0.18: lines.append(f'popen {o} {rng.choice(PCMDS)} {mode()}'); isopen[o] = True
+        elif r < 0.30: lines.append(f'{rng.choice(["pclose", "pclose", "pstop"])} {o}'); isopen[o] = False
+        elif r < 0.36 and o >= 2 and o not in inside: lines.append(f'pdel {o}'); exists[o] = False; isopen[o] = False
+        elif r < 0.50: lines.append(f'pread {o} {rng.choice([0, 1, 2, 5, 100, 4096, 4097, 70000])}')
+        elif r < 0.64: lines.append(f'pwrite {o} {rng.choice([0, 1, 3, 100, 4096, 4097, 20000])} {rng.randrange(1 << 30)}')
+        elif r < 0.70: lines.append(f'peof {o}')
+        elif r < 0.74: lines.append(f'ptell {o}')
+        elif r < 0.78: lines.append(f'pseek {o} {rng.choice([0, -1, 5])} {rng.choice(["set", "cur", "end", "bad"])}')
+        elif r < 0.82: lines.append(f'pflush {o}')
+        elif r < 0.86: lines.append(f'pprint {o} {rng.randrange(-10**6, 10**6)}')
+        elif r < 0.88: lines.append(f'pgen {rng.randrange(4)} {rng.choice([0, 3, 300, 5000])} {rng.randrange(99)}')
+        elif r < 0.94 and depth < 2:
+            leave = rng.choice(LEAVES)
+            at = len(lines); lines.append('?')
+            for _ in range(rng.randrange(0, 4)): step(depth + 1, inside + [o])
+            if leave in EARLY and exists[o]: lines.append(f'pclose {o}'); isopen[o] = False
+            lines[at] = f'pwith {o} {leave} {len(lines) - at - 1}'
+            isopen[o] = False
+        else:
+            if not isopen[o] or rng.random() < 0.3:
+                lines.append(f'pclose {o}'); isopen[o] = False
+                lines.extend(closed_ops(o))
+    for _ in range(rng.randrange(5, 40)): step(0, [])
+    return lines
+
 class C20(Spec):
     id = 'C20'; engine = 'file'; harness = 'h_file'; driver = 'drv_file'
     generators = ('File',)
@@ -487,6 +544,11 @@ class C20(Spec):
                   'C20_random_access (seek anywhere, write, seek back, read: identical), C20_print_transport (every fragment print_to hands to the '
                   'File arrives byte for byte), C20_scan_reads_bytes (scan_from is a function of the bytes after the position), '
                   'C20_double_close_refuted (the code before fix b3448e7 violates close-once on two concrete histories). '
+                  'Process objects (popen/pclose, the same wrappers): C20_process_same_wrappers / C20_process_guard_table / C20_process_source_shape (source ties), '
+                  'C20_process_closed_refused, C20_process_after_close_refused (also after a non-zero exit status the handle is dropped), C20_process_new '
+                  '(the constructor always opens; fewer than two arguments: IndexOutOfBoundsError before popen), C20_process_close_once(_system), '
+                  'C20_process_close_old_refuted / _repaired (the code before fix 51c301c: pclose(NULL) on a second sclose; a second pclose of one popen after a '
+                  'non-zero exit status). '
                   'The `with` construct is modelled as the for loop of with_in, clause by clause, over source expressions with side effects '
                   '(a File constructed in the header) and the four ways out of a body: C20_with_close_once_system (close-once for every program with '
                   'nested with blocks), C20_with_protocol / C20_with_evaluated_once (for every program the source expression of each block is '
@@ -503,7 +565,11 @@ class C20(Spec):
                   'the handle; open/del close a held handle) are re-extracted from the source on every run (C20_guard_table).')
     level_note = ('Trusted: Lean kernel; libc stdio is modelled by a reference implementation validated against glibc on every run (not verified); '
                   'the text conversions of print_to/scan_from are C14/C15; the regex translator for File.c; harness/driver comparison is testing. '
-                  'Not covered: Process; two streams on one file; a+ mode; octal/hex/overflowing %li input; I/O errors other than /dev/full.')
+                  'Process (the second Stream class of src/File.c) shares the wrapper model: the translator checks that Process_<X> is File_<X> under the '
+                  'renaming popen/pclose/p->proc for every function but the constructor (C20_process_same_wrappers); popen/pclose are modelled by a small '
+                  'reference (commands true, false, cat) validated each run. '
+                  'Not covered: two streams on one file; a+ mode; octal/hex/overflowing %li input; I/O errors other than /dev/full; scan_from on an open pipe; '
+                  'commands killed by a signal.')
     rule = ('op files: (a) round trips: lengths 0…4 BUFSIZ biased to buffer boundaries, random chunkings of writes and reads (with empty chunks '
             'and over-reads), reopen or seek to start by SET/CUR/END, then random seeks within the file; (b) every order of the life-cycle ops '
             '(new+open, open, close, stop, with, withx, del, open /dev/full+write, del+with over inline new left normally / by break) up to length 3 (quick) / 4 (thorough) plus random longer ones over several objects; '
@@ -512,13 +578,17 @@ class C20(Spec):
             '(inline new(File, path, mode), new(File), a call-counting function) or is a variable, bodies that write / print / close / reopen / '
             'nest further blocks, left by falling off the end, continue, or — after closing the File — break, return or an exception, then dump + '
             'read back / scan of what they left; (h) copy / assign of Files closed just before, both objects then used independently; '
-            'new(File, path) with one argument. The two known-finding regions (early exit with the File open; copy / assign of an open File) are '
+            'new(File, path) with one argument; (i) Process objects on `true`, `false` (non-zero exit status) and `cat` in both directions: constructor with '
+            '2/1/0 arguments and bad modes, every op on a closed Process, reopen, del, with blocks, reads in chunks with over-reads, writes checked against the sink; '
+            '(j) `drop`: a heap File is made unreachable and a collection forced — the collector must make exactly the fclose `del` would make. '
+            'The two known-finding regions (early exit with the File open; copy / assign of an open File) are '
             'exercised by corpus/kf_c20_*.ops only. non-trivial item = an op whose observation shows a stdio call or a '
             'refusal on a closed File; distinct = distinct (op text, observation).')
     trusted_base = ('translate/g_file.py (regex over src/File.c, src/Start.c, the three clauses of with_in)',
                     'harness/h_file.c + lean/Driver/File.lean (correspondence is testing)',
                     'glibc stdio is modelled by Cello.File.refIO (validated each run against libc on a twin file), not verified',
-                    'print_to/scan_from conversions (vfprintf/vfscanf) trusted: C14/C15')
+                    'print_to/scan_from conversions (vfprintf/vfscanf) trusted: C14/C15',
+                    'popen/pclose and stdio on a pipe are modelled by Cello.File.pipeIO (commands true / false / cat; validated each run against the real calls), not verified')
     assumptions = ('one stream per file at a time (the reference stdio has no buffers); modes r w a r+ w+ (+b)',
                    'no read directly after write or write directly after read without fseek/fflush/EOF (undefined in C): such ops are skipped by both sides',
                    'scan_from only on plain decimal text (no leading zeros / 0x, at most 18 digits)',
@@ -535,7 +605,11 @@ class C20(Spec):
                    'case is corpus/kf_c20_copy_aliases.ops.  The theorem over handles additionally assumes of stdio that fopen never returns a '
                    'handle that is still open (freshCalls, a hypothesis on the log)',
                    'a File constructed in the header of a with block is kept reachable by the harness (slot objs[o]) so that the collector does not '
-                   'finalise it at a time the model cannot predict')
+                   'finalise it at a time the model cannot predict; the collector as closer is exercised by the op `drop` (slot cleared, stack scrubbed, '
+                   'GC_Mark + GC_Sweep forced; not on /dev/full, where File_Del would throw out of the sweep)',
+                   'Process: commands true / false / cat only; modes r, w (r+ and x: popen answers NULL); writes only to `cat` sinks (a command that has exited '
+                   'would raise SIGPIPE); an input pipe is read to its end inside the interposed pclose before the real one (so that cat is never killed by SIGPIPE '
+                   'and the wait status is the exit status); no sflush on an input pipe; no scan_from on an open pipe; one Process per cat input / sink at a time')
     def cases(self, rng, tier, boost=1):
         quick = tier == 'quick'
         cs = []
@@ -561,6 +635,7 @@ class C20(Spec):
         pack('copy', [gen_copy(rng, maxbuf) for _ in range((60 if quick else 400) * boost)], 1)
         pack('text', [gen_text(rng) for _ in range((60 if quick else 500) * boost)], 1)
         pack('dev', [gen_device(rng) for _ in range((50 if quick else 350) * boost)], 1)
+        pack('proc', [gen_proc(rng) for _ in range((80 if quick else 600) * boost)], 1)
         pack('soup', [gen_soup(rng, rng.randrange(20, 120 if quick else 400), maxbuf) for _ in range((150 if quick else 900) * boost)], 1)
         return cs
     def model_selfcheck(self, case, m_out):
@@ -598,6 +673,9 @@ class C20(Spec):
             if m: acc['max_read'] = max(acc.get('max_read', 0), int(m.group(1))); acc['bytes_read'] = acc.get('bytes_read', 0) + int(m.group(1))
             m = re.search(r'st=h\d+:(\d+):', o)
             if m: acc['max_pos'] = max(acc.get('max_pos', 0), int(m.group(1)))
+            if op == 'drop' and 'fclose:' in o: acc['collector_closed'] = acc.get('collector_closed', 0) + 1
+            if op in ('pclose', 'pstop', 'pdel', 'pwith-exit', 'popen') and 'exc=IOError' in o and 'pclose:p' in o:
+                acc['pclose_nonzero_status'] = acc.get('pclose_nonzero_status', 0) + 1
             if op == 'end':
                 m = re.search(r'fopen=(\d+) fail=(\d+) fclose=(\d+)', o)
                 if m: acc['fopen'] = acc.get('fopen', 0) + int(m.group(1)); acc['fopen_failed'] = acc.get('fopen_failed', 0) + int(m.group(2)); acc['fclose'] = acc.get('fclose', 0) + int(m.group(3))
